@@ -37,6 +37,10 @@ RULE = ("generated documents: 1-3 pages of positioned text runs (horizontal line
         "again, a sibling document with the same font / XObject names, another codec, caching flipped): state left behind "
         "by a converter must not matter. A failure is re-run in a fresh interpreter to find out which earlier steps it "
         "needs; the replay contains exactly those. "
+        "Every document is also converted by a TextConverter constructed directly with showpageno=True (text sink + one "
+        "binary sink); the escaping functions utils.enc / XMLConverter.attr / write_text are called directly on ~70 "
+        "strings per run over all scalar ranges (C0 controls, U+FFFE/U+FFFF, astral) and their output is read back by "
+        "the Lean unescAny. "
         "A case is one (document, laparams, output type, sink, strip) evaluation; non-trivial when the document has at "
         "least one glyph and at least one special (XML-special, control or non-ASCII) character in a text or a name")
 TRUSTED_BASE = [
@@ -45,11 +49,15 @@ TRUSTED_BASE = [
     "on the canonical dump of every generated LTPage tree and comparing with the converter output character by "
     "character (sampling)",
     "tools/translate/gen_c11.py regenerates the CONTROL class, the XML element templates (which arguments go through "
-    "enc) and bbox2str from pdfminer/converter.py, pdfminer/utils.py on every run",
+    "enc), the TextConverter literals incl. the showpageno header, bbox2str, LTCurve.get_pts and the colour-space names "
+    "from pdfminer/converter.py, utils.py, layout.py, pdfcolor.py, pdfinterp.py on every run",
     "number formatting: '%.3f' / '%d' / utils.bbox2str (regenerated) are modelled in Lean on exact values and tied to "
     "Python on the numbers of every generated tree and on rounding-tie probes; the model consumes the formatted strings; "
-    "str(colour) and the pts join stay opaque (alphabet checked per tree)",
-    "Python codecs (utf-8, utf-16, latin-1, cp1252) are abstract: an incremental encoder with a left-inverse decoder",
+    "LTCurve.get_pts and the table of colour-space names are regenerated and proved Plain; str(colour) (Python float "
+    "repr) stays opaque (alphabet checked per tree)",
+    "Python codecs are abstract (an incremental encoder with a left-inverse decoder) except utf-8, utf-8-sig, utf-16, "
+    "utf-16-le, utf-16-be, utf-32, latin-1: concrete state machines (Model/ConvertCodec.lean) whose sink BYTES are "
+    "compared with the real BytesIO contents on every run (textbin / xmlbin); inverse decoders proved for utf-32 / utf-16",
     "xml.etree.ElementTree (expat) as the independent XML well-formedness oracle; the shared PDF writer",
     "html.escape as shipped with CPython (its five replacements are modelled by hand and correspondence-checked)",
 ]
@@ -77,7 +85,34 @@ STATEMENT_STATUS: Dict[str, str] = {
     "C11_fmt_d_plain": "proved: '%d' model output is digits/- for every signed rational",
     "C11_bbox2str_plain": "proved over the REGENERATED utils.bbox2str",
     "C11_numeric_items_ok": "proved: items whose numeric fields come from the formatters meet the Plain hypotheses of "
-                            "C11_xml_wf for all numbers (remaining opaque: str(colour), pts join, page id)",
+                            "C11_xml_wf for all numbers (remaining opaque after round 6: str(colour) only)",
+    "C11_text_pageno": "proved: every tree, BOTH showpageno values - output = per page optional 'Page <id>' header "
+                       "(regenerated template) + in-order text + form feed (specTextPn)",
+    "C11_text_pageno_off": "proved: showpageno False is exactly the model / spec of C11_text",
+    "C11_text_raw": "proved: trees without text boxes (laparams=None) - output is the glyph texts + form feeds, no "
+                    "character added",
+    "C11_sink_text_pageno": "proved (C11_sink_text for both showpageno values)",
+    "C11_sink_utf32": "proved, NO hypothesis: utf-32 incremental encoder (pending byte-order mark) as a concrete state "
+                      "machine; for all writes and both error policies the bytes decode to the concatenated writes",
+    "C11_sink_utf32_text": "proved (text output, every tree, both showpageno values)",
+    "C11_sink_utf16": "proved, NO hypothesis: utf-16 (mark once, little-endian units, surrogate pairs)",
+    "C11_sink_utf16_text": "proved",
+    "C11_xml_wf_utf32": "proved: XML bytes in a utf-32 sink, decoded, parsed = skeleton (end to end)",
+    "C11_xml_wf_utf16": "proved: the same for utf-16",
+    "esc_roundtrip_all": "proved for EVERY string of scalar values (controls, U+FFFE/F, astral): replacing references "
+                         "in enc(s) gives s",
+    "attr_roundtrip_all": "proved for every string: XMLConverter.attr read back = (stripped) string",
+    "text_roundtrip_all": "proved for every string: XMLConverter.write_text read back = (stripped) string",
+    "esc_injective_all": "proved: enc / attr / write_text are injective (modulo CONTROL stripping) on all strings",
+    "C11_skeleton_strip": "proved: skeleton with strip_control = skeleton of the tree with the stripped strings",
+    "C11_skeleton_injective": "proved: equal skeletons => equal (stripped) trees, all trees",
+    "C11_xml_injective": "proved: equal XML output of two trees in the domain => equal (stripped) trees",
+    "C11_xml_injective_nostrip": "proved: without strip_control equal output => equal trees",
+    "C11_get_pts_plain": "proved over the REGENERATED LTCurve.get_pts for every point list",
+    "C11_path_items_ok": "proved: <line>/<rect>/<curve> are in the domain of C11_xml_wf with no hypothesis",
+    "C11_colourspace_plain": "proved over the REGENERATED table of colour-space names",
+    "C11_char_item_ok": "proved: glyph in the domain given str(ncolor) Plain and XML-legal document strings",
+    "C11_page_fields_plain": "proved: <page> attributes Plain for all numbers",
     "C11_xml_lex": "proved: the reader's lexer inverts the rendering of every well-formed token sequence",
     "C11_xml_wf": "proved (full statement): parseXML (characters XMLConverter writes) = some (docSkeleton tree) for all "
                   "trees in the domain PageOk (strings XML Char after optional CONTROL stripping, formatted numbers "
@@ -995,7 +1030,7 @@ def eval_case(spec, la, strip: bool, codecs: List[str], want_model: bool = True,
             if codec in MODELLED_CODECS and want_model and only is None and scalar_tree(tree):
                 inp = {"spec": spec, "codec": codec, **cfg}
                 res.req.append((tree_line("textbin", tree, codec, "0"), "tie", out.hex() or "-",
-                                {"op": "textbin", **inp}))
+                                {"op": "textbin", "dropped": not representable(exp_text, codec), **inp}))
                 if codec in ("utf-32", "utf-16") and out:
                     op = "utf32dec" if codec == "utf-32" else "utf16dec"
                     res.req.append((op + " " + out.hex(), "spec", hexs(exp_text), {"op": op, **inp}))
@@ -1468,6 +1503,8 @@ def flush_model(ctx: C.Ctx, results: List[CaseResult]) -> None:
     outs = ctx.driver.ask([q[0] for q in reqs])
     for (line, kind, exp, inp), got in zip(reqs, outs):
         ctx.branch(kind + ":" + inp["op"])
+        if inp["op"] == "textbin" and inp.get("dropped"):
+            ctx.branch("textbin:unrepresentable-characters-dropped (errors=ignore)")
         if inp["op"] == "textraw":
             ctx.branch("textraw:" + ("tree-with-boxes" if exp == "boxes" else "raw-glyph-tree"))
         if got == exp:
